@@ -309,20 +309,14 @@ class Gen:
             out.append({"k": "item", "kids": kids})
         return out
 
-    def enumerated(self, depth, roman8=False):
+    def enumerated(self, depth):
         rng = self.rng
         items = self.items(depth)
         fmt = rng.choice(["period", "rparen", "parens"])
-        if rng.random() < 0.15 and not roman8:
+        if rng.random() < 0.15:
             return {"k": "enumerated", "seq": "arabic", "fmt": fmt, "start": 1, "auto": True, "items": items}
         seq = rng.choice(["arabic", "loweralpha", "upperalpha", "lowerroman", "upperroman"])
         n = len(items)
-        if roman8:
-            seq = rng.choice(["lowerroman", "upperroman"])
-            start = rng.choice([6, 7, 8, 8, 21, 39])
-            while start in (6, 7) and start + len(items) - 1 < 8:
-                items.append({"k": "item", "kids": [self.para(hi=2)]})
-            return {"k": "enumerated", "seq": seq, "fmt": fmt, "start": start, "auto": False, "items": items}
         if seq == "arabic":
             start = rng.choice([1, 1, 1, 2, 3, 9, 10, 99, 100])
         elif seq.endswith("alpha"):
@@ -331,13 +325,12 @@ class Gen:
             if start == 9:
                 start = 10
         else:
-            start = rng.choice([1, 1, 2, 3, 4, 9, 11, 14, 17, 19])
-            # keep clear of the known roman-table defect (tinydocutils/roman.py covers I..XX and has "VII" twice):
-            # no ordinal 8, no step 7->8, nothing above 20
-            vals = list(range(start, start + n))
-            if vals[-1] > 20 or 8 in vals:
-                start = 1
-                items = items[:min(n, 6)]
+            # any start whose numeral has more than one letter (a list that STARTS at v, x, l, c, d or m is an
+            # alphabetic list by the rules of the markup), up to the end of the model's range (3999)
+            start = rng.choice([1, 1, 2, 3, 4, 6, 7, 8, 9, 11, 14, 17, 19, 20, 21, 24, 39, 40, 49, 88, 99, 101, 400, 444, 499, 888,
+                                999, 1994, 2024, 2999, 3888, 3990, rng.randint(2, 3990)])
+            if start in (5, 10, 50, 100, 500, 1000):
+                start += 1
         return {"k": "enumerated", "seq": seq, "fmt": fmt, "start": start, "auto": False, "items": items}
 
     def deflist(self, depth):
@@ -685,12 +678,6 @@ class C03(core.PropertyCheck):
                 cases.append(self.gen_sections(rng))
             else:
                 cases.append(self.gen_escape(rng))
-        if tier != "search":
-            for _ in range(6):   # the known roman-table defect, kept apart from the main stream
-                ch = rng.choice(STYLE_CHARS)
-                cases.append({"kind": "doc", "layout": g.layout(), "roman8": True,
-                              "blocks": [{"k": "section", "title": [inl_text("Roman")], "style": ch, "over": False,
-                                          "kids": [g.enumerated(0, roman8=True)]}]})
         attach_render(cases)
         return iter(cases)
 
@@ -842,7 +829,7 @@ class C03(core.PropertyCheck):
     def compare(self, case, model, impl):
         k = case["kind"]
         if impl.get("exc") and k not in ("textblock",):
-            return None if case.get("roman8") or impl["exc"] == "TimeoutSkipped" else f"implementation raised {impl['exc']}"
+            return None if impl["exc"] == "TimeoutSkipped" else f"implementation raised {impl['exc']}"
         if k == "indent":
             for key in ("block", "indent", "blank_finish"):
                 if model[key] != impl[key]:
@@ -882,8 +869,6 @@ class C03(core.PropertyCheck):
         if impl.get("exc") == "TimeoutSkipped":
             return None
         if impl.get("exc") and k != "textblock":
-            if case.get("roman8"):
-                return f"roman-table|crash: {impl['exc']}: {impl.get('msg', '')}"
             return f"crash: {impl['exc']}: {impl.get('msg', '')}"
         if k == "indent":
             return oracle_indent(case, impl)
@@ -926,14 +911,12 @@ class C03(core.PropertyCheck):
         exp = case["expected"][0]
         d = diff(exp, impl["ast"])
         if d:
-            return f"{'roman-table|' if case.get('roman8') else ''}{d[0]}| {d[1]}"
-        if impl["diags"] and not case.get("roman8"):
+            return f"{d[0]}| {d[1]}"
+        if impl["diags"]:
             return f"diagnostic| well-formed document reported {impl['diags'][:2]}"
         return None
 
     def finding_key(self, case, impl, desc):
-        if desc.startswith("roman-table|"):
-            return "roman-table"
         if "|" in desc:
             return desc.split("|")[0]
         return desc.split(":")[0]
